@@ -546,7 +546,7 @@ Section Reader.
     | None => Lib eUnmodelled
     | Some fs =>
         do rc <- dec_fields fs origin (cur + rdlen) cur [];
-        if Nat.eqb (snd rc) (cur + rdlen) then Ok (merge_pb (fst rc)) else Lib eFormError
+        if Nat.eqb (snd rc) (cur + rdlen) then Ok (fst rc) else Lib eFormError
     end.
 
   (* option codes with a specific class in dns.edns._type_to_class *)
@@ -693,9 +693,9 @@ Section Read2.
                      (set_sec m 0 (find_add (mq m) (fst nc) rdclass' rdtype' 0 None true (fun x => x)))
     end.
 
-  (* one iteration of the loop of _WireReader._get_section *)
-  Definition get_rr (section : Z) (count i : nat) (cur : nat) (force_unique : bool) (m : msg)
-    : res (nat * bool * msg) :=
+  (* the wire-reading head of one iteration of _WireReader._get_section: owner name (absolute
+     and relativized), offset after it, and the fixed fields *)
+  Definition rr_head (cur : nat) : res (name * name * nat * Z * Z * Z * Z) :=
     do anc <- nm_from_wire wire endp cur;
     let absolute_name := fst anc in
     do n <- match origin with Some o => relativize absolute_name o | None => Ok absolute_name end;
@@ -704,6 +704,13 @@ Section Read2.
     do rdclass <- rd_u16 wire endp (c1 + 2);
     do ttl <- rd_u32 wire endp (c1 + 4);
     do rdlen <- rd_u16 wire endp (c1 + 8);
+    Ok (absolute_name, n, c1, rdtype, rdclass, ttl, rdlen).
+
+  (* one iteration of the loop of _WireReader._get_section *)
+  Definition get_rr (section : Z) (count i : nat) (cur : nat) (force_unique : bool) (m : msg)
+    : res (nat * bool * msg) :=
+    do hd <- rr_head cur;
+    let '(absolute_name, n, c1, rdtype, rdclass, ttl, rdlen) := hd in
     do h <- (if (rdtype =? tOPT) || (rdtype =? tTSIG)
              then parse_special_rr_header m section count i n rdclass rdtype
              else parse_rr_header is_update m section rdclass rdtype);
@@ -737,15 +744,15 @@ Section Read2.
                     (find_add (get_sec m section) n rdclass' rdtype' covers deleting fu
                               (fun rs => rrset_add rs rd ttl'))).
 
-  (* _WireReader._get_section: k records still to read, i = count - k *)
-  Fixpoint get_section (section : Z) (count k : nat) (cur : nat) (force_unique : bool) (m : msg)
-    : res (nat * msg) :=
+  (* _WireReader._get_section: `for i in range(count)`; k records still to read from index i *)
+  Fixpoint get_section (section : Z) (count i k : nat) (cur : nat) (force_unique : bool) (m : msg)
+    : res (nat * bool * msg) :=
     match k with
-    | O => Ok (cur, m)
+    | O => Ok (cur, force_unique, m)
     | S k' =>
-        do r <- get_rr section count (count - k) cur force_unique m;
+        do r <- get_rr section count i cur force_unique m;
         let '(cur', fu, m') := r in
-        get_section section count k' cur' fu m'
+        get_section section count (S i) k' cur' fu m'
     end.
 End Read2.
 
@@ -771,10 +778,10 @@ Definition from_wire (wire : list Z) (origin : option name) (po : popts) : res m
       do q <- get_question wire origin is_update (Z.to_nat qcount) 12 m0;
       if p_question_only po then Ok (snd q)
       else
-        do a <- get_section wire origin po is_update 1 (Z.to_nat ancount) (Z.to_nat ancount) (fst q) one_rr (snd q);
-        do b <- get_section wire origin po is_update 2 (Z.to_nat aucount) (Z.to_nat aucount) (fst a) one_rr (snd a);
-        do c <- get_section wire origin po is_update 3 (Z.to_nat adcount) (Z.to_nat adcount) (fst b) one_rr (snd b);
-        if negb (p_ignore_trailing po) && negb (Nat.eqb (fst c) endp) then Lib eTrailingJunk
+        do a <- get_section wire origin po is_update 1 (Z.to_nat ancount) 0 (Z.to_nat ancount) (fst q) one_rr (snd q);
+        do b <- get_section wire origin po is_update 2 (Z.to_nat aucount) 0 (Z.to_nat aucount) (fst (fst a)) one_rr (snd a);
+        do c <- get_section wire origin po is_update 3 (Z.to_nat adcount) 0 (Z.to_nat adcount) (fst (fst b)) one_rr (snd b);
+        if negb (p_ignore_trailing po) && negb (Nat.eqb (fst (fst c)) endp) then Lib eTrailingJunk
         else Ok (snd c) in
     match body with
     | Lib e =>
